@@ -244,6 +244,22 @@ func offenders(goText, msg string, scs []*Scenario) map[string]string {
 	return bad
 }
 
+// ImporterDir creates a scratch module requiring the tree under test and makes it the working
+// directory (xrun's importer resolves imports with `go list` relative to the working directory).
+func ImporterDir(dir string) error {
+	if err := os.MkdirAll(dir, 0o755); err != nil {
+		return err
+	}
+	gomod := fmt.Sprintf("module verifimp\n\ngo 1.18\n\nrequire github.com/goplus/xgo v0.0.0\n\nreplace github.com/goplus/xgo => %s\n", xrun.Repo())
+	sum, _ := os.ReadFile(filepath.Join(xrun.Repo(), "go.sum"))
+	if err := os.WriteFile(filepath.Join(dir, "go.mod"), []byte(gomod), 0o644); err != nil {
+		return err
+	}
+	os.WriteFile(filepath.Join(dir, "go.sum"), sum, 0o644)
+	os.WriteFile(filepath.Join(dir, "imp.go"), []byte("package verifimp\n\nimport _ \"github.com/qiniu/x/errors\"\n"), 0o644)
+	return os.Chdir(dir)
+}
+
 func firstLine(s string) string {
 	if i := strings.IndexByte(s, '\n'); i >= 0 {
 		return s[:i]
